@@ -215,6 +215,7 @@ def canon(root) -> dict:
         el = order[i]
         i += 1
         attrs = []
+        keys = []                       # the dict key each attribute record is stored under (what elem[name] looks up)
         members: list | None = []       # the dict itself, the 'name' member included: [key, [name, TYPE, is_array, values]]
         for key, attr in el._members.items():
             typ = attr.type.name
@@ -227,9 +228,10 @@ def canon(root) -> dict:
                 continue
             rec = [attr.name, typ, bool(attr.is_array), [_canon_value(typ, v, index_of) for v in raw]]
             attrs.append(rec)
+            keys.append(key)
             if members is not None:
                 members.append([key, rec])
-        out.append({'type': el.type, 'name': el.name, 'uuid': el.uuid.hex, 'attrs': attrs, 'members': members})
+        out.append({'type': el.type, 'name': el.name, 'uuid': el.uuid.hex, 'attrs': attrs, 'members': members, 'keys': keys})
     return {'elems': out, 'refs': refs}
 
 
@@ -262,6 +264,7 @@ def reachable_canon(spec: dict) -> dict:
                     nv.append(v)
             attrs.append([name, typ, is_arr, nv])
         out.append({'type': e['type'], 'name': ename, 'uuid': e['uuid'], 'attrs': attrs, 'has_name': has_name,
+                    'keys': [k for k, _ in members if k != 'name'],
                     'name_pos': next((j for j, (k, _) in enumerate(members) if k == 'name'), None)})
     return {'elems': out, 'refs': refs}
 
@@ -297,10 +300,14 @@ def diff(a: dict, b: dict, text: bool, uuid_all: bool = True) -> str | None:
             return f'elem[{i}].uuid: {x["uuid"]} != {y["uuid"]}'
         if len(x['attrs']) != len(y['attrs']):
             return f'elem[{i}] attribute count {len(x["attrs"])} != {len(y["attrs"])} ({[t[0] for t in x["attrs"]]} vs {[t[0] for t in y["attrs"]]})'
-        for (n1, t1, a1, v1), (n2, t2, a2, v2) in zip(x['attrs'], y['attrs']):
+        kx, ky = x.get('keys'), y.get('keys')
+        for j, ((n1, t1, a1, v1), (n2, t2, a2, v2)) in enumerate(zip(x['attrs'], y['attrs'])):
             w = f'elem[{i}].attr[{n1!r}]'
             if n1 != n2:
                 return f'{w} name != {n2!r}'
+            if kx is not None and ky is not None and kx[j] != ky[j]:
+                # same record, but the mapping API (elem[name], `in`, del) does not find it under its name any more
+                return f'{w} key: stored under {ky[j]!r}, not under {kx[j]!r} (lookup by name fails)'
             if t1 != t2:
                 return f'{w} type {t1} != {t2}'
             if a1 != a2:
